@@ -144,7 +144,7 @@ func vfPorts(n int) ([]int, error) {
 }
 
 // vfNewCluster runs New with a watchdog: New retries forever when the server cannot start.
-func vfNewCluster(opt *option.Options, wait time.Duration) (*cluster, error) {
+func vfNewCluster(opt *option.Options, wait time.Duration) (Cluster, error) {
 	type res struct {
 		c   Cluster
 		err error
@@ -159,7 +159,7 @@ func vfNewCluster(opt *option.Options, wait time.Duration) (*cluster, error) {
 		if r.err != nil {
 			return nil, r.err
 		}
-		return r.c.(*cluster), nil
+		return r.c, nil
 	case <-time.After(wait):
 		return nil, fmt.Errorf("cluster.New did not return within %v (it retries forever when the server cannot start)", wait)
 	}
@@ -168,13 +168,13 @@ func vfNewCluster(opt *option.Options, wait time.Duration) (*cluster, error) {
 // vfBed is the test bed.
 type vfBed struct {
 	dir       string
-	primary   *cluster
+	primary   Cluster
 	popt      *option.Options
 	clientURL string // the server's real client URL (direct)
 	peerURL   string // the server's peer URL (members use it as their endpoint)
 	relay     *vfRelay
 	raw       *clientv3.Client // direct, no auto-sync: the harness's own client
-	members   []*cluster       // secondaries
+	members   []Cluster        // secondaries
 }
 
 // vfParse runs opt.Parse() with the test binary's own flags hidden (Parse reads os.Args).
@@ -255,7 +255,12 @@ func vfStartBed(t *testing.T, viaRelay bool) *vfBed {
 
 // vfAddSecondary creates a client-only member. Its endpoint is the relay when viaRelay is set,
 // else the server's peer URL.
-func (b *vfBed) vfAddSecondary(t *testing.T, name string, viaRelay bool) *cluster {
+func (b *vfBed) vfAddSecondary(t *testing.T, name string, viaRelay bool) Cluster {
+	return b.vfAddSecondaryTimeout(t, name, viaRelay, "10s")
+}
+
+// vfAddSecondaryTimeout: same, with the member's cluster-request-timeout option given.
+func (b *vfBed) vfAddSecondaryTimeout(t *testing.T, name string, viaRelay bool, requestTimeout string) Cluster {
 	ports, err := vfPorts(1)
 	if err != nil {
 		t.Fatalf("VF-INCONCLUSIVE no free ports: %v", err)
@@ -264,7 +269,7 @@ func (b *vfBed) vfAddSecondary(t *testing.T, name string, viaRelay bool) *cluste
 	opt.Name = name
 	opt.ClusterName = "vf-cluster"
 	opt.ClusterRole = "secondary"
-	opt.ClusterRequestTimeout = "10s"
+	opt.ClusterRequestTimeout = requestTimeout
 	ep := b.peerURL
 	if viaRelay {
 		ep = b.relay.URL()
